@@ -35,7 +35,7 @@ func c14ts(r *rand.Rand) string {
 }
 
 func c14gen(r *rand.Rand) *c14case {
-	c := &c14case{FileName: []string{"app.log", "svc", "a.b.c", "x-1_y", "app.log"}[r.IntN(5)]}
+	c := &c14case{FileName: []string{"app.log", "svc", "a.b.c", "x-1_y", "app.log", "gw-2006.n1", "Jan_02.15"}[r.IntN(7)]}
 	switch r.IntN(5) {
 	case 0:
 		c.MaxAge = int32(1 + r.IntN(3))
@@ -134,7 +134,9 @@ func c14populate(dir string, c *c14case, t0 time.Time) error {
 			if err := os.MkdirAll(p, 0755); err != nil {
 				return err
 			}
-			_ = os.WriteFile(filepath.Join(p, "inner."+"20200101000000"), []byte("x"), 0644)
+			if e.AgeMin%2 == 0 { // every other directory stays empty (an empty directory can be removed like a file)
+				_ = os.WriteFile(filepath.Join(p, "inner."+"20200101000000"), []byte("x"), 0644)
+			}
 		} else if err := os.WriteFile(p, []byte("content of "+e.Name+"\n"), 0644); err != nil {
 			return err
 		}
@@ -394,7 +396,7 @@ func init() {
 	register(&Prop{
 		ID: "C14", Level: "exploration", MinDistinct: 20, Worker: c14Worker,
 		Rule: "directory states generated per case: 3-10 own rotated files '<name>.<14 digits>', 2-5 sibling '<name>.wf.<ts>' files, 4-11 foreign prefix-sharing or unrelated files from 17 shapes (name.audit.<ts>, name.bak, name.1.gz, 13/15-digit suffixes, name.<ts>.gz, 'name.', 'name', namex.<ts>, upper-case, letters/sign inside the digits, ...), sub-directories incl. one named exactly like an own file; " +
-			"modification times set to T0-age with ages 0, maxAge∓11 min, ∓1 h, far expired, uniformly young; names in {app.log, svc, a.b.c, x-1_y}; 1-3 own files whose name carries a recent or future local time while the file itself is old (and vice versa); workers run in six time zones (TZ); maxAge over 1..720 h with emphasis on 1-3 and 590-720; optionally a sibling '<name>.wf' appender cleaning the same directory. The appender is started (current file exists) and the scan runs through the guarded synchronous entry; a second worker kind lets a real 1 s rotation trigger the asynchronous scan and polls the directory. " +
+			"modification times set to T0-age with ages 0, maxAge∓11 min, ∓1 h, far expired, uniformly young; names in {app.log, svc, a.b.c, x-1_y, gw-2006.n1, Jan_02.15}; 1-3 own files whose name carries a recent or future local time while the file itself is old (and vice versa); workers run in six time zones (TZ); maxAge over 1..720 h with emphasis on 1-3 and 590-720; optionally a sibling '<name>.wf' appender cleaning the same directory. The appender is started (current file exists) and the scan runs through the guarded synchronous entry; a second worker kind lets a real 1 s rotation trigger the asynchronous scan and polls the directory. " +
 			"Oracle: survivors = everything except regular files matching ^<name>\\.\\d{14}$ older than maxAge hours (no file lies within 10 min of the cut-off). In every third case the same appender scans a second time after half of the surviving own files were touched (modification time = now) and maxAge was lowered to 1 h. Non-trivial/distinct = distinct (trigger, name, maxAge band, sibling, something deleted) classes that matched.",
 		Assumptions: []string{"files within 10 minutes of the cut-off are never generated; a case taking longer than that is inconclusive", "modification times are set with os.Chtimes"},
 		Run: func(d *D) {
